@@ -18,6 +18,15 @@ import (
 const (
 	flushCommandBatch  = 8
 	flushBufferedBytes = 2048
+
+	// Limits on what a client may declare before sending it (the same defaults
+	// Redis uses): at most 1M arguments per command, 512 MiB per argument.
+	maxMultiBulkLen = 1024 * 1024
+	maxBulkLen      = 512 * 1024 * 1024
+	// Memory for a frame is allocated as its bytes arrive, never from the
+	// declared length alone.
+	initialArgsCap = 16
+	bulkReadChunk  = 16 * 1024
 )
 
 var (
@@ -430,13 +439,13 @@ func parseRESP(r *bufio.Reader) ([][]byte, error) {
 			return nil, err
 		}
 		n, err := strconv.Atoi(line)
-		if err != nil {
+		if err != nil || n > maxMultiBulkLen {
 			return nil, fmt.Errorf("invalid multibulk length %q", line)
 		}
 		if n < 0 {
 			return nil, nil
 		}
-		out := make([][]byte, 0, n)
+		out := make([][]byte, 0, min(n, initialArgsCap))
 		for range n {
 			b, err := r.ReadByte()
 			if err != nil {
@@ -450,15 +459,15 @@ func parseRESP(r *bufio.Reader) ([][]byte, error) {
 				return nil, err
 			}
 			l, err := strconv.Atoi(line)
-			if err != nil {
+			if err != nil || l > maxBulkLen {
 				return nil, fmt.Errorf("invalid bulk length %q", line)
 			}
 			if l < 0 {
 				out = append(out, nil)
 				continue
 			}
-			buf := make([]byte, l)
-			if _, err := io.ReadFull(r, buf); err != nil {
+			buf, err := readBulk(r, l)
+			if err != nil {
 				return nil, err
 			}
 			if err := expectCRLF(r); err != nil {
@@ -485,6 +494,29 @@ func parseRESP(r *bufio.Reader) ([][]byte, error) {
 		}
 		return out, nil
 	}
+}
+
+// readBulk reads exactly l bytes. Small payloads are read in one piece; for
+// large ones the buffer grows with the data that has actually arrived, so a
+// declared length alone never costs memory.
+func readBulk(r *bufio.Reader, l int) ([]byte, error) {
+	if l <= bulkReadChunk {
+		buf := make([]byte, l)
+		if _, err := io.ReadFull(r, buf); err != nil {
+			return nil, err
+		}
+		return buf, nil
+	}
+	buf := make([]byte, 0, bulkReadChunk)
+	for len(buf) < l {
+		start := len(buf)
+		step := min(l-start, max(bulkReadChunk, start))
+		buf = append(buf, make([]byte, step)...)
+		if _, err := io.ReadFull(r, buf[start:]); err != nil {
+			return nil, err
+		}
+	}
+	return buf, nil
 }
 
 func readLine(r *bufio.Reader) (string, error) {
